@@ -358,7 +358,7 @@ def is_paid(prog, t, denom_path):
     return is_param_of_type(c[2][0], "MessageInfo") and loaded_field(prog, c[2][1], "config", denom_path, "staking")
 
 
-def coin_parts(t):
+def coin_parts(t, _depth=0, prog=None):
     """(amount term, denom term) of a coin-valued term in any of the repo's spellings."""
     if t[0] == "agg" and t[2] == "Some" and len(t[3]) == 1:
         t = t[3][0][2]
@@ -368,6 +368,16 @@ def coin_parts(t):
         return agg_field(t, "amount"), agg_field(t, "denom")
     if t[0] in ("phi", "upd", "mut", "param", "field", "payload"):
         return term_field(t, "amount"), term_field(t, "denom")
+    if t[0] == "call" and _depth < 1:
+        # a local coin-constructor helper (`proto_coin(amount)`): look through it (head only:
+        # the arguments, e.g. the minted amount, stay as written)
+        import engine.mir as _m
+        from engine.analysis import resolve_head
+        pr = prog or _m.CURRENT
+        if pr is not None:
+            r = resolve_head(pr, t)
+            if r != t:
+                return coin_parts(r, _depth + 1, pr)
     return None, None
 
 
@@ -419,7 +429,7 @@ def transfers(prog, hctx, env):
     """every MsgTransfer constructed (deep, with parameters bound to the handler's terms)."""
     out = []
     for c, path, bi, si, t in aggregates_deep(prog, hctx, lambda adt, var: adt.endswith("transfer::v1::MsgTransfer"), env.depth + 1):
-        amount, denom = coin_parts(agg_field(t, "token") or ("none",))
+        amount, denom = coin_parts(agg_field(t, "token") or ("none",), 0, prog)
         out.append({
             "term": t, "receiver": agg_field(t, "receiver"), "amount": amount, "denom": denom, "sender": agg_field(t, "sender"),
             "channel": agg_field(t, "source_channel"), "port": agg_field(t, "source_port"), "timeout": agg_field(t, "timeout_timestamp"),
@@ -480,7 +490,7 @@ def tf_messages(prog, hctx, env):
     out = []
     for c, path, bi, si, t in aggregates_deep(prog, hctx, lambda adt, var: adt.split("::")[-1] in ("MsgMint", "MsgBurn", "MsgCreateDenom") and "tokenfactory" in adt, env.depth):
         kind = {"MsgMint": "mint", "MsgBurn": "burn", "MsgCreateDenom": "create"}[t[1].split("::")[-1]]
-        amount, denom = coin_parts(agg_field(t, "amount") or ("none",))
+        amount, denom = coin_parts(agg_field(t, "amount") or ("none",), 0, prog)
         out.append({
             "kind": kind, "sender": agg_field(t, "sender"), "amount": amount, "denom": denom,
             "holder": agg_field(t, "mint_to_address") or agg_field(t, "burn_from_address"), "subdenom": agg_field(t, "subdenom"),
